@@ -51,3 +51,7 @@ def parse_assignment(
         return TensorExpressionParsers.assignment.parse(string)
     except (MutatingAssignmentError, InconsistentDimensionsError, NameConflictError) as e:
         return result.Failure(e)
+    except (RecursionError, ValueError) as e:
+        # Too deeply nested or too long for the recursive parser, or an integer literal beyond
+        # the interpreter's int() digit limit
+        return result.Failure(e)
